@@ -37,10 +37,19 @@ AX = "XYZ"
 RT_SEEDS = [(0.4, -0.6, 0.9), (2.8, 0.2, -0.3), (-2.8, 0.2, -0.3), (0.25, 2.8, 0.2), (0.25, -2.8, 0.2), (0.2, -0.3, 2.8), (0.2, -0.3, -2.8)]
 
 
+GENERIC = {"a0": 0.4, "a1": -0.6, "a2": 0.9}
+
+
 def adjust_seeds(inst, seeds, angle_pins, rng, g):
     if inst["name"].startswith("rt:"):
         for k, v in zip(("a0", "a1", "a2"), RT_SEEDS[g % len(RT_SEEDS)]):
             seeds[k] = v
+    else:
+        # all angles are free in these instances, so the pinned Pythagorean base point is irrelevant for the encoding; a randomly drawn one can sit exactly on a
+        # branch boundary (e.g. a1 + a2 = pi/2 in a degenerate sequence: the sign literal is then rounding-dependent and dropped). Use fixed generic seeds.
+        for k, v in GENERIC.items():
+            if k in seeds and k in angle_pins:
+                seeds[k] = v if inst["args"][0] != "angleaxis" else 0.8
 
 
 def instances(tier, seed):
